@@ -126,8 +126,9 @@ func (server *SugarDB) Flush(database int) {
 }
 
 func (server *SugarDB) keysExist(ctx context.Context, keys []string) map[string]bool {
-	server.storeLock.RLock()
-	defer server.storeLock.RUnlock()
+	// The write lock is needed because keys that turn out to be expired are removed.
+	server.storeLock.Lock()
+	defer server.storeLock.Unlock()
 
 	database := ctx.Value("Database").(int)
 
@@ -136,7 +137,12 @@ func (server *SugarDB) keysExist(ctx context.Context, keys []string) map[string]
 	for _, key := range keys {
 		entry, ok := server.store[database][key]
 		// A key whose expiry time has passed no longer exists, whether or not it has been removed yet.
-		if ok && entry.ExpireAt != (time.Time{}) && entry.ExpireAt.Before(server.clock.Now()) {
+		if ok && !server.restoreInProgress.Load() && entry.ExpireAt != (time.Time{}) && entry.ExpireAt.Before(server.clock.Now()) {
+			// In standalone mode the key is removed right away (and the removal is logged). In a cluster
+			// the removal has to go through the leader, which is left to the readers of the value.
+			if !server.isInCluster() {
+				server.expireKey(ctx, key)
+			}
 			ok = false
 		}
 		exists[key] = ok
@@ -174,25 +180,8 @@ func (server *SugarDB) getValues(ctx context.Context, keys []string) map[string]
 			continue
 		}
 
-		if entry.ExpireAt != (time.Time{}) && entry.ExpireAt.Before(server.clock.Now()) {
-			if !server.isInCluster() {
-				// If in standalone mode, delete the key directly.
-				err := server.deleteKey(ctx, key)
-				if err != nil {
-					log.Printf("keyExists: %+v\n", err)
-				}
-			} else if server.isInCluster() && server.raft.IsRaftLeader() {
-				// If we're in a raft cluster, and we're the leader, send command to delete the key in the cluster.
-				err := server.raftApplyDeleteKey(ctx, key)
-				if err != nil {
-					log.Printf("keyExists: %+v\n", err)
-				}
-			} else if server.isInCluster() && !server.raft.IsRaftLeader() {
-				// Forward message to leader to initiate key deletion.
-				// This is always called regardless of ForwardCommand config value
-				// because we always want to remove expired keys.
-				server.memberList.ForwardDeleteKey(ctx, key)
-			}
+		if !server.restoreInProgress.Load() && entry.ExpireAt != (time.Time{}) && entry.ExpireAt.Before(server.clock.Now()) {
+			server.expireKey(ctx, key)
 			values[key] = nil
 			continue
 		}
@@ -208,6 +197,32 @@ func (server *SugarDB) getValues(ctx context.Context, keys []string) map[string]
 	}(ctx, keys)
 
 	return values
+}
+
+// expireKey removes a key whose expiry time has passed. The caller must hold the store lock.
+// In standalone mode the removal is also written to the append-only log, so that replaying the log
+// (during which no key expires) removes the key at the same point of the command sequence.
+func (server *SugarDB) expireKey(ctx context.Context, key string) {
+	if !server.isInCluster() {
+		// If in standalone mode, delete the key directly.
+		if err := server.deleteKey(ctx, key); err != nil {
+			log.Printf("expireKey: %+v\n", err)
+			return
+		}
+		if server.aofEngine != nil {
+			server.aofEngine.LogCommand(ctx.Value("Database").(int), internal.EncodeCommand([]string{"DEL", key}))
+		}
+	} else if server.isInCluster() && server.raft.IsRaftLeader() {
+		// If we're in a raft cluster, and we're the leader, send command to delete the key in the cluster.
+		if err := server.raftApplyDeleteKey(ctx, key); err != nil {
+			log.Printf("expireKey: %+v\n", err)
+		}
+	} else if server.isInCluster() && !server.raft.IsRaftLeader() {
+		// Forward message to leader to initiate key deletion.
+		// This is always called regardless of ForwardCommand config value
+		// because we always want to remove expired keys.
+		server.memberList.ForwardDeleteKey(ctx, key)
+	}
 }
 
 func (server *SugarDB) setValues(ctx context.Context, entries map[string]interface{}) error {
@@ -231,7 +246,7 @@ func (server *SugarDB) setValues(ctx context.Context, entries map[string]interfa
 		if _, ok := server.store[database][key]; ok {
 			expireAt = server.store[database][key].ExpireAt
 			// A value written over a key that has already expired is a new key: it does not inherit the old expiry.
-			if expireAt != (time.Time{}) && expireAt.Before(server.clock.Now()) {
+			if !server.restoreInProgress.Load() && expireAt != (time.Time{}) && expireAt.Before(server.clock.Now()) {
 				expireAt = time.Time{}
 			}
 		}
@@ -702,15 +717,7 @@ func (server *SugarDB) evictKeysWithExpiredTTL(ctx context.Context) error {
 			}
 			// Delete the expired key
 			deletedCount += 1
-			if !server.isInCluster() {
-				if err := server.deleteKey(ctx, k); err != nil {
-					return fmt.Errorf("evictKeysWithExpiredTTL -> standalone delete: %+v", err)
-				}
-			} else if server.isInCluster() && server.raft.IsRaftLeader() {
-				if err := server.raftApplyDeleteKey(ctx, k); err != nil {
-					return fmt.Errorf("evictKeysWithExpiredTTL -> cluster delete: %+v", err)
-				}
-			}
+			server.expireKey(ctx, k)
 		}
 		return nil
 	}()
